@@ -42,7 +42,7 @@ type bounds struct {
 }
 
 func tierBounds(thorough bool) bounds {
-	b := bounds{maxNodes: 4, rotUpTo: 3, histories: []string{"once", "twice", "cache", "reopen", "other"}, fullHistoryUpTo: 3, tailFormNodes: 3,
+	b := bounds{maxNodes: 4, rotUpTo: 3, histories: []string{"once", "twice", "cache", "reopen", "other", "closedcm", "hostclose", "rtinst"}, fullHistoryUpTo: 3, tailFormNodes: 3,
 		chainPattern: []string{"d", "i", "dim", "dhr"}}
 	for d := 1; d <= 40; d++ {
 		b.chainDepths = append(b.chainDepths, d)
@@ -155,8 +155,8 @@ func evalCase(p *program, id caseID, base *outcome) caseVerdict {
 			// compilation of the binary; host functions (compiled once, no binary) stay with the second.
 			guest := func(i int) bool { return set(i) && !p.tree.isHost(i) }
 			host := func(i int) bool { return set(i) && p.tree.isHost(i) }
-			_, va := judgeStream(p, id.Engine, guest, v.res.EvA)
-			_, vb := judgeStream(p, id.Engine, host, v.res.Ev)
+			_, va := judgeStream(p, id.Engine, id.History, guest, v.res.EvA)
+			_, vb := judgeStream(p, id.Engine, id.History, host, v.res.Ev)
 			if onlyKnownShape(va) && onlyKnownShape(vb) {
 				v.viols = append(v.viols, viol{"history:" + id.History + ":" + id.Engine + ":second-factory-ignored-first-notified",
 					fmt.Sprintf("the binary was compiled a second time with another listener factory; the instance of the second CompiledModule sent all %d guest-function events to the first factory's listeners and none to the second's", len(v.res.EvA))})
@@ -171,7 +171,7 @@ func evalCase(p *program, id caseID, base *outcome) caseVerdict {
 				fmt.Sprintf("listeners of the earlier compilation received %d events: %s", len(v.res.EvA), clip(streamString(v.res.EvA)))})
 		}
 	}
-	tail, vs := judgeStream(p, id.Engine, set, ev)
+	tail, vs := judgeStream(p, id.Engine, id.History, set, ev)
 	v.tail = tail
 	v.viols = append(v.viols, vs...)
 	v.clean = len(vs) == 0
@@ -249,6 +249,11 @@ func runUnit(u unit, b bounds) (res unitResult) {
 		starts = []bool{false}
 	}
 	histories := b.histories
+	hasHost, hasExit := false, false
+	for i := range t {
+		hasHost = hasHost || t.isHost(i)
+		hasExit = hasExit || t[i].Out == 'E'
+	}
 	for _, start := range starts {
 		p := buildProgram(t, start, u.Rot)
 		sets := setsFor(u, len(t))
@@ -273,6 +278,15 @@ func runUnit(u unit, b bounds) (res unitResult) {
 						continue
 					}
 					if u.Fam == "tree" && h != "once" && len(t) > b.fullHistoryUpTo && !s.All && s.Mask != 1<<uint(len(t))-1 && s.Mask&(s.Mask-1) != 0 {
+						continue
+					}
+					// "cache" and "reopen" exercise the same engine-level map as "twice": on the larger
+					// trees they run with the all-functions factory only
+					if u.Fam == "tree" && (h == "cache" || h == "reopen") && len(t) > b.fullHistoryUpTo && !s.All {
+						continue
+					}
+					// lifecycle histories only where they can differ from "once"
+					if (h == "hostclose" && !hasHost) || (h == "rtinst" && !hasExit) || (h == "closedcm" && start) {
 						continue
 					}
 					id := caseID{Tree: u.Tree, Rot: u.Rot, Start: start, Engine: eng, History: h, Listen: true, Mask: s.Mask, All: s.All}
